@@ -11,6 +11,7 @@ package main
 
 import (
 	"bufio"
+	"context"
 	"encoding/json"
 	"errors"
 	"fmt"
@@ -190,11 +191,13 @@ func (e *c08env) issue(c c08call) (panicked string) {
 		l.Print(c.msg, args...)
 	case 5:
 		l.Println()
+	case 6:
+		l.Logit(context.Background(), slog.Level(-3), c.msg, args...) // a severity nobody registered: its tag is derived per record
 	}
 	return
 }
 
-var c08Sev = []int{4, 3, 2, 5, 8, 8}
+var c08Sev = []int{4, 3, 2, 5, 8, 8, -3}
 
 type c08out struct {
 	emit    func(op, obs string)
@@ -217,7 +220,7 @@ func c08Stress(seed uint64, tier string, o c08out) {
 		progs := make([][]c08call, G)
 		for gi := range progs {
 			for i := 0; i < N; i++ {
-				c := c08call{logger: g.intn(nLoggers), verb: g.intn(5), msg: c08Msgs[g.intn(len(c08Msgs))], shape: g.intn(6), id: fmt.Sprintf("g%d-c%d", gi, i)}
+				c := c08call{logger: g.intn(nLoggers), verb: []int{0, 1, 2, 3, 4, 6, 6}[g.intn(7)], msg: c08Msgs[g.intn(len(c08Msgs))], shape: g.intn(6), id: fmt.Sprintf("g%d-c%d", gi, i)}
 				if c.msg != "" || c.verb != 4 {
 					c.msg = fmt.Sprintf("call %s. %s", c.id, c.msg)
 				}
